@@ -39,6 +39,10 @@ Expected(e) ==
     [] e.fn = "dqconj"     -> DQVec(DQConj(DQ8(e.a)))
     [] e.fn = "dqmatvec"   -> DQMatVec(DQ8(e.a), e.b)
     [] e.fn = "dqnorm2"    -> DQNorm2(DQ8(e.a))
+    \* product of the UNIT dual quaternions of two rigid motions (q1, t1, d1), (q2, t2, d2), logged as
+    \* K * real part and 2 K * dual part with K = d1 d2 sqrt(N(q1) N(q2))
+    [] e.fn = "udqmul"     -> LET a == DQFromRigid2(Mk(e.q1, e.t1, e.d1))  b == DQFromRigid2(Mk(e.q2, e.t2, e.d2))
+                              IN  QMul(a.r, b.r) \o QAdd(QMul(a.r, b.d), QMul(a.d, b.r))
     [] OTHER               -> << >>
 
 \* the 3-vector form stands for the quaternion with non-negative scalar part: when the scalar part of
@@ -46,6 +50,8 @@ Expected(e) ==
 Accepts(e) ==
   \/ e.res = Expected(e)
   \/ (e.fn = "vvmul_n" /\ QMul(e.a, e.b)[1] < 0 /\ e.res = Neg3(Expected(e)))
+  \* a unit dual quaternion and its negative are the same motion: the WHOLE 8-vector may change sign, never one half
+  \/ (e.fn = "udqmul" /\ e.res = [i \in 1..8 |-> -Expected(e)[i]])
 
 Init == l = 1 /\ bad = <<>>
 Next ==
